@@ -409,12 +409,13 @@ def meta_expr(c, o):
     cl = coq_classes(o["classes"])
     if c["mode"] in ("dot", "gen_dot"):
         doc = "mm_dot_doc %s %s" % (cl, coq_rows(o["rows"]))
-        rend = "dot_renderer"
+        hyps = "wf_mm %s && names_ok %s" % (cl, cl)
     else:
         lt = "(Some %s)" % cs(c["linetype"]) if c.get("linetype") else "None"
         doc = "mm_pu_doc %s %s %s" % (cl, lt, coq_rows(o["rows"]))
-        rend = "pu_renderer"
-    return "String.append (show_bool (wf_mm %s)) (show_str (%s))" % (cl, doc)
+        hyps = "wf_mm %s && names_ok %s && rows_ok %s && linetype_ok %s" % (cl, cl, coq_rows(o["rows"]), lt)
+    # the hypotheses of the metamodel theorems, evaluated on the dumped class list, then the modelled text
+    return "String.append (show_bool (%s)%%bool) (show_str (%s))" % (hyps, doc)
 
 
 WALK_IMPORTS = """From TxV Require Import Core.Base Core.Show Model.ExportDefs Gen.SrcExport Model.Export Model.ExportWalk Model.ExportMeta.
@@ -566,7 +567,7 @@ def run(chk):
         if mv is not None:
             compared["metamodel:%s" % c.get("mode")] = compared.get("metamodel:%s" % c.get("mode"), 0) + 1
         if mv is not None and mv != "T" + core.canon_text(o["text"]):
-            what = "the dumped class list violates wf_mm (a link or specialisation touches a class without a node)" if mv.startswith("F") else None
+            what = "the dumped class list violates the hypotheses of the metamodel theorems (wf_mm: a link or specialisation touches a class without a node; names_ok/rows_ok/linetype_ok: a name is no identifier)" if mv.startswith("F") else None
             disagreements.append({"case": c, "impl": {"text": o["text"]}, "model": mv, "what": what})
     chk.cov["disagreements_checked"] = len(strings) + len(walk) + len(metas)
     # exported texts compared character for character with the Coq traversal models, per mode
